@@ -20,7 +20,7 @@ func init() {
 			"(all 4x256 (block,value) pairs, for the exponent, its negation and its double), all 2^k-th roots of unity, 0, 1, p-1, small integers and seeded random values; for point recovery additionally x solved from a targeted y^2; " +
 			"a class is (function, targeted block, block value / kind, residue or not); non-trivial = v not in {0,1}",
 		Technique:        "reference-model monitor (Jacobi symbol, squaring and curve equation in math/big) on every call + operand snapshot",
-		MinEvals:         map[string]int64{"quick": 60000, "thorough": 1500000},
+		MinEvals:         map[string]int64{"quick": 60000, "thorough": 600000},
 		MinClasses:       map[string]int64{"quick": 2000, "thorough": 4000},
 		RequiredCounters: []string{"nil_expected_and_observed", "roots_verified", "points_recovered"},
 		Assumptions:      []string{"math/big Jacobi/ModSqrt are the oracle; the decimal constant of the 2^32-th root of unity is checked to have order exactly 2^32"},
